@@ -156,9 +156,56 @@ func carryShapeOK(m *model.Model, call *ssa.Call) string {
 		return false
 	}
 	if isCarry(y, 4) {
+		// … into a window that is more than the one word the carry lands on: a destination
+		// z[j:j+1] absorbs the carry only if that word is not all nines, and the carry out of it is
+		// what is being thrown away
+		if sl, ok := stripConv(call.Call.Args[0]).(*ssa.Slice); ok && sl.High != nil {
+			lo := sxC(0)
+			if sl.Low != nil {
+				lo = linSx(sl.Low, 6)
+			}
+			if d := sxAdd(linSx(sl.High, 6), sxNeg(lo)); d.isC() && d.k == 1 {
+				return "!a carry is propagated into a destination window of exactly one word and the carry out of that word is discarded: the word may be all nines"
+			}
+		}
 		return "in-place propagation of a kernel's carry"
 	}
 	return ""
+}
+
+// linSx: an integer SSA value as a canonical sum (see asmsym.go): +, − and multiplication by a
+// constant are looked through, everything else is an atom named by its SSA identity.
+func linSx(v ssa.Value, depth int) *sx {
+	if k, ok := model.ConstInt(v); ok {
+		return sxC(uint64(k))
+	}
+	if depth > 0 {
+		switch x := v.(type) {
+		case *ssa.BinOp:
+			switch x.Op {
+			case token.ADD:
+				return sxAdd(linSx(x.X, depth-1), linSx(x.Y, depth-1))
+			case token.SUB:
+				return sxAdd(linSx(x.X, depth-1), sxNeg(linSx(x.Y, depth-1)))
+			case token.MUL:
+				if k, ok := model.ConstInt(x.Y); ok {
+					return sxMulC(linSx(x.X, depth-1), uint64(k))
+				}
+				if k, ok := model.ConstInt(x.X); ok {
+					return sxMulC(linSx(x.Y, depth-1), uint64(k))
+				}
+			case token.SHL:
+				if k, ok := model.ConstInt(x.Y); ok && k >= 0 && k < 62 {
+					return sxMulC(linSx(x.X, depth-1), uint64(1)<<uint(k))
+				}
+			}
+		case *ssa.Convert:
+			return linSx(x.X, depth-1)
+		case *ssa.ChangeType:
+			return linSx(x.X, depth-1)
+		}
+	}
+	return sxLeaf(fmt.Sprintf("v:%s@%p", v.Name(), v))
 }
 
 // sameSliceExpr: a and b start at the same element of the same buffer (their lengths may differ).
@@ -213,6 +260,13 @@ func runCarry(m *model.Model, s *ob.Set) {
 	disc := map[string][]string{}
 	shaped := map[string][]string{}
 	used := map[string]int{}
+	var forced [][3]string
+	oneWordAddBack := 0
+	defer func() {
+		for _, f := range forced {
+			s.Bad(R, f[0]+"/window", f[1], f[2])
+		}
+	}()
 	for _, fn := range m.Funcs {
 		if !m.InDecimalPkg(fn) || inKernelLayer(m, fn) {
 			continue
@@ -233,7 +287,17 @@ func runCarry(m *model.Model, s *ob.Set) {
 				}
 				key := m.FuncName(fn) + "/" + cal.Name()
 				if liveReferrers(m, call) == 0 {
-					if why := carryShapeOK(m, call); why != "" {
+					if why := carryShapeOK(m, call); strings.HasPrefix(why, "!") {
+						if m.FuncName(fn) == "dec.divBasic" && cal.Name() == "add10VW" && oneWordAddBack == 0 {
+							// Knuth D6, add back: the carry out of u[j+n] cancels the borrow the
+							// multiply-and-subtract step took from the same word (tabled, one site)
+							oneWordAddBack++
+							shaped[key] = append(shaped[key], "add-back into the one word the borrow came from (Knuth D6; tabled)")
+							continue
+						}
+						forced = append(forced, [3]string{key, m.InstrPos(call), why[1:]})
+						continue
+					} else if why != "" {
 						shaped[key] = append(shaped[key], why)
 						continue
 					}
@@ -283,6 +347,7 @@ func runCarry(m *model.Model, s *ob.Set) {
 
 func runPool(m *model.Model, s *ob.Set) {
 	const R = "POOL"
+	runPoolEscape(m, s)
 	getDec, putDec := m.Lookup("getDec"), m.Lookup("putDec")
 	nsites := 0
 	for _, fn := range m.Funcs {
@@ -1051,16 +1116,49 @@ func runCmpSym(m *model.Model, s *ob.Set) {
 		}
 		if n == "(*Decimal).ucmp" {
 			// exponents before mantissa words
-			var expB, wordB *ssa.BasicBlock
-			for k, e := range lt {
-				if strings.Contains(k, ".exp") {
-					expB = e.blk
+			// every test of the exponents of both operands (written <, >, != or ==, directly or
+			// through local copies) and every ordered test of anything else
+			var expBs, wordBs []*ssa.BasicBlock
+			expField := "." + m.FieldN[m.F.Exp]
+			for _, b := range fn.Blocks {
+				if !live[b.Index] || len(b.Instrs) == 0 {
+					continue
 				}
-				if strings.Contains(k, "[") || strings.Contains(k, "phi") || !strings.Contains(k, ".exp") {
-					wordB = e.blk
+				ifi, ok := b.Instrs[len(b.Instrs)-1].(*ssa.If)
+				if !ok {
+					continue
+				}
+				bo, ok := ifi.Cond.(*ssa.BinOp)
+				if !ok {
+					continue
+				}
+				kx, ky := exprKey(m, bo.X, 5), exprKey(m, bo.Y, 5)
+				if strings.HasSuffix(kx, expField) && strings.HasSuffix(ky, expField) && kx != ky {
+					expBs = append(expBs, b)
 				}
 			}
-			ok := expB != nil && wordB != nil && expB != wordB && m.Dominates(expB, wordB)
+			for k, e := range lt {
+				if !strings.Contains(k, expField) {
+					wordBs = append(wordBs, e.blk)
+				}
+			}
+			for k, e := range gt {
+				if !strings.Contains(k, expField) {
+					wordBs = append(wordBs, e.blk)
+				}
+			}
+			ok := len(expBs) > 0 && len(wordBs) > 0
+			for _, wb := range wordBs {
+				dom := false
+				for _, eb := range expBs {
+					if eb != wb && m.Dominates(eb, wb) {
+						dom = true
+					}
+				}
+				if !dom {
+					ok = false
+				}
+			}
 			s.Check(ok, R, n+"/exponent-first", m.Pos(fn.Pos()), "the exponent comparison dominates the mantissa comparison", "ucmp must decide on the exponents before it looks at mantissa words")
 			// "equal" may be answered only when BOTH mantissas are exhausted: the loop conditions that
 			// dominate the final `return 0` must depend on len(x.mant) and on len(y.mant) (a loop
@@ -1213,7 +1311,12 @@ func runMustFlow(m *model.Model, s *ob.Set) {
 	// uquo: remainder -> sticky bit
 	{
 		fn := m.Lookup("(*Decimal).uquo")
-		var rem, sb ssa.Value
+		var rem ssa.Value
+		type sbSite struct {
+			v ssa.Value
+			b *ssa.BasicBlock
+		}
+		var sbs []sbSite
 		for _, b := range fn.Blocks {
 			for _, in := range b.Instrs {
 				if cal, c := model.Callee(in); cal != nil {
@@ -1227,12 +1330,54 @@ func runMustFlow(m *model.Model, s *ob.Set) {
 						}
 					}
 					if cal == sear {
-						sb = c.Args[2]
+						sbs = append(sbs, sbSite{c.Args[2], b})
 					}
 				}
 			}
 		}
-		ok := rem != nil && sb != nil && flowsInto(m, rem, sb, 10, map[ssa.Value]bool{})
+		ok := rem != nil && len(sbs) > 0
+		for _, sb := range sbs {
+			if !ok {
+				break
+			}
+			if flowsInto(m, rem, sb.v, 10, map[ssa.Value]bool{}) {
+				continue
+			}
+			// the same written as two calls: a constant sticky argument on each side of a test
+			// of the remainder's length — 0 only where the remainder is empty
+			k, isK := model.ConstInt(sb.v)
+			sideOK := false
+			if isK {
+				isLenRem := func(v ssa.Value) bool {
+					c, ok := stripConv(v).(*ssa.Call)
+					return ok && model.BuiltinName(&c.Call) == "len" && stripConv(c.Call.Args[0]) == rem
+				}
+				for _, gb := range fn.Blocks {
+					if len(gb.Instrs) == 0 {
+						continue
+					}
+					ifi, ok := gb.Instrs[len(gb.Instrs)-1].(*ssa.If)
+					if !ok {
+						continue
+					}
+					bo, ok := ifi.Cond.(*ssa.BinOp)
+					if !ok {
+						continue
+					}
+					if e0, ok := zeroOnEdge(bo, isLenRem); ok {
+						if k == 0 && m.EdgeDominates(gb, e0, sb.b) {
+							sideOK = true
+						}
+						if k != 0 && m.EdgeDominates(gb, 1-e0, sb.b) {
+							sideOK = true
+						}
+					}
+				}
+			}
+			if !sideOK {
+				ok = false
+			}
+		}
 		s.Check(ok, R, "(*Decimal).uquo/remainder->sticky", m.Pos(fn.Pos()), "a non-zero remainder sets the sticky bit", "the remainder of the long division does not reach the sticky argument of setExpAndRound: inexact quotients would be rounded and reported as if exact")
 	}
 }
